@@ -2,15 +2,17 @@ import SpecterModel.C14.Model
 /-!
 # C14 — Chord errors keep their identity and retryability across RPC
 
-General lemmas for ANY registry with pairwise distinct messages, then the instances for the registry
-GENERATED from spec/chord/errors.go (`Gen.C14.registry`; `msgs_distinct` is re-decided whenever the
-generated text changes).
+General lemmas for ANY error map with pairwise distinct messages, then the instances for the facts
+GENERATED from spec/chord/errors.go (`Gen.C14`: registry, externals, mapInit; `msgs_distinct` and
+`retryable_all_mapped` are re-decided whenever the generated text changes).
 
-* `identity_preserved`, `retryability_preserved` — every registry error, through every handler kind
-  (WrapError / WrapErrorKV / raw), arrives as the same registry variable with the same retryability.
-* `unknown_nonretryable` — whatever error value whose message is not a registry message arrives non-retryable.
+* `identity_preserved`, `retryability_preserved` — every mapped error (the 18 registry errors and
+  context.DeadlineExceeded), through every handler kind (WrapError / WrapErrorKV / raw), arrives as the same Go
+  value with the same retryability; `retryable_all_mapped`: every error the origin classifies retryable is mapped.
+* `unknown_nonretryable` — whatever error value whose message is not a mapped message arrives non-retryable.
 * `code_matches_retryability` — the twirp code on the wire is failed_precondition exactly for retryable origins.
-* facts of the model, proved and reported (not hidden): `wrapped_loses_identity`, `deadline_not_preserved`.
+* `deadline_preserved` (current code) and the regression witness `deadline_not_preserved_prefix` (the error map
+  before the repair); `wrapped_loses_identity` (fact of the model, outside the reachable domain).
 -/
 namespace Specter.C14
 
@@ -52,96 +54,118 @@ theorem mapper_unknown (reg : List Entry) (w : Wire) (h : w.msg ∉ reg.map Entr
     exact h (List.mem_map.mpr ⟨x, List.mem_reverse.mp hx, by simpa using hm⟩)
   simp only [this]
 
-theorem wrapErr_msg (reg : List Entry) (how : String) (x : GoErr) : (wrapErr reg how x).msg = x.msg := by
+theorem wrapErr_msg (known : List Entry) (how : String) (x : GoErr) : (wrapErr known how x).msg = x.msg := by
   unfold wrapErr; split <;> rfl
 
-theorem identity_preserved_gen (reg : List Entry) (hnd : (reg.map Entry.msg).Nodup) (how : String)
-    (e : Entry) (he : e ∈ reg) : acrossRPC reg how (.reg e) = .reg e := by
+theorem identity_preserved_gen (known mp : List Entry) (hnd : (mp.map Entry.msg).Nodup) (how : String)
+    (e : Entry) (he : e ∈ mp) : acrossRPC known mp how (.reg e) = .reg e := by
   unfold acrossRPC
-  have h := wrapErr_msg reg how (.reg e)
-  generalize wrapErr reg how (.reg e) = w at h
+  have h := wrapErr_msg known how (.reg e)
+  generalize wrapErr known how (.reg e) = w at h
   obtain ⟨c, m⟩ := w
   simp only [GoErr.msg] at h
   subst h
-  exact mapper_reg reg hnd e he c
+  exact mapper_reg mp hnd e he c
 
-theorem unknown_nonretryable_gen (reg : List Entry) (how : String) (x : GoErr)
-    (h : x.msg ∉ reg.map Entry.msg) :
-    ∃ c, acrossRPC reg how x = .twirp c x.msg ∧ retryable reg (acrossRPC reg how x) = false := by
+theorem unknown_nonretryable_gen (known mp : List Entry) (how : String) (x : GoErr)
+    (h : x.msg ∉ mp.map Entry.msg) :
+    ∃ c, acrossRPC known mp how x = .twirp c x.msg ∧ retryable known (acrossRPC known mp how x) = false := by
   unfold acrossRPC
-  have hm := wrapErr_msg reg how x
-  rw [mapper_unknown reg _ (by rw [hm]; exact h), hm]
+  have hm := wrapErr_msg known how x
+  rw [mapper_unknown mp _ (by rw [hm]; exact h), hm]
   exact ⟨_, rfl, rfl⟩
 
-/-! ## the generated registry -/
+/-! ## the generated facts -/
 
-def registry : List Entry := Gen.C14.registry
+/-- the fact everything rests on: the messages in the error map are pairwise distinct -/
+theorem msgs_distinct : (mapped.map Entry.msg).Nodup := by decide
 
-/-- the fact everything rests on: the messages of the registry are pairwise distinct -/
-theorem msgs_distinct : (registry.map Entry.msg).Nodup := by decide
+/-- every error the origin classifies as retryable is in the error map (so none loses its retryability) -/
+theorem retryable_all_mapped : ∀ e ∈ known, e.retryable = true → e ∈ mapped := by decide
 
-theorem deadline_unregistered : deadlineMsg ∉ registry.map Entry.msg := by decide
+theorem mapped_known : ∀ e ∈ mapped, e ∈ known := by decide
 
 /-- the model's code selection is the extracted one -/
 theorem facts_wrapCodes :
-    Gen.C14.wrapCodes = [("WrapError", "FailedPrecondition", "Internal"), ("WrapErrorKV", "FailedPrecondition", "Internal")]
-    ∧ Gen.C14.extraRetryable = ["context.DeadlineExceeded"] := by decide
+    Gen.C14.wrapCodes = [("WrapError", "FailedPrecondition", "Internal"), ("WrapErrorKV", "FailedPrecondition", "Internal")] := by
+  decide
 
-/-- **C14 (identity).** Every registry error a node returns — through a handler that wraps with
+/-- **C14 (identity).** Every mapped error a node returns — through a handler that wraps with
 `rpc.WrapError`, `rpc.WrapErrorKV`, or returns it raw — is recognised by the caller as the same error. -/
-theorem identity_preserved (how : String) (e : Entry) (he : e ∈ registry) :
-    acrossRPC registry how (.reg e) = .reg e :=
-  identity_preserved_gen registry msgs_distinct how e he
+theorem identity_preserved (how : String) (e : Entry) (he : e ∈ mapped) :
+    acrossRPC known mapped how (.reg e) = .reg e :=
+  identity_preserved_gen known mapped msgs_distinct how e he
 
 /-- **C14 (retryability).** … and is classified retryable by the caller exactly when it was at the origin. -/
-theorem retryability_preserved (how : String) (e : Entry) (he : e ∈ registry) :
-    retryable registry (acrossRPC registry how (.reg e)) = retryable registry (.reg e) := by
+theorem retryability_preserved (how : String) (e : Entry) (he : e ∈ mapped) :
+    retryable known (acrossRPC known mapped how (.reg e)) = retryable known (.reg e) := by
   rw [identity_preserved how e he]
 
-/-- **C14 (unknown).** An error whose message is not a registry message — an arbitrary error, a wrapped one,
-a deadline — reaches the caller as an unmapped twirp error and is NOT retryable there. -/
-theorem unknown_nonretryable (how : String) (x : GoErr) (h : x.msg ∉ registry.map Entry.msg) :
-    retryable registry (acrossRPC registry how x) = false := by
-  obtain ⟨_, _, h2⟩ := unknown_nonretryable_gen registry how x h; exact h2
+/-- … in particular every sentinel that is retryable at the origin stays retryable at the caller. -/
+theorem retryable_origin_stays_retryable (how : String) (e : Entry) (he : e ∈ known) (hr : e.retryable = true) :
+    retryable known (acrossRPC known mapped how (.reg e)) = true := by
+  rw [retryability_preserved how e (retryable_all_mapped e he hr)]
+  have hc : known.contains e = true := List.contains_iff_mem.mpr he
+  simp only [retryable, hc, hr, Bool.and_self]
+
+/-- **C14 (unknown).** An error whose message is not in the error map — an arbitrary error, a wrapped one —
+reaches the caller as an unmapped twirp error and is NOT retryable there. -/
+theorem unknown_nonretryable (how : String) (x : GoErr) (h : x.msg ∉ mapped.map Entry.msg) :
+    retryable known (acrossRPC known mapped how x) = false := by
+  obtain ⟨_, _, h2⟩ := unknown_nonretryable_gen known mapped how x h; exact h2
 
 /-- the wire code is `failed_precondition` exactly for retryable origins (wrapping handlers) -/
 theorem code_matches_retryability (how : String) (x : GoErr) (hw : how ≠ "raw") :
-    (wrapErr registry how x).code = "failed_precondition" ↔ retryable registry x = true := by
+    (wrapErr known how x).code = "failed_precondition" ↔ retryable known x = true := by
   unfold wrapErr
   simp only [hw, if_false]
-  cases retryable registry x <;> simp
+  cases retryable known x <;> simp
 
-/-- FACT (outside the reachable domain: no handler returns a `%w`-wrapped chord error): wrapping a registry
+/-- FACT (outside the reachable domain: no handler returns a `%w`-wrapped chord error): wrapping a mapped
 error changes the message, so the caller gets an unmapped twirp error, identity and retryability are lost. -/
-theorem wrapped_loses_identity (how : String) (e : Entry) (he : e ∈ registry) (m : String)
-    (hm : m ∉ registry.map Entry.msg) :
-    retryable registry (.wrap m (.reg e)) = e.retryable ∧
-    acrossRPC registry how (.wrap m (.reg e)) ≠ .reg e ∧
-    retryable registry (acrossRPC registry how (.wrap m (.reg e))) = false := by
-  obtain ⟨c, h1, h2⟩ := unknown_nonretryable_gen registry how (.wrap m (.reg e)) hm
+theorem wrapped_loses_identity (how : String) (e : Entry) (he : e ∈ mapped) (m : String)
+    (hm : m ∉ mapped.map Entry.msg) :
+    retryable known (.wrap m (.reg e)) = e.retryable ∧
+    acrossRPC known mapped how (.wrap m (.reg e)) ≠ .reg e ∧
+    retryable known (acrossRPC known mapped how (.wrap m (.reg e))) = false := by
+  obtain ⟨c, h1, h2⟩ := unknown_nonretryable_gen known mapped how (.wrap m (.reg e)) hm
   refine ⟨?_, ?_, h2⟩
-  · have hc : registry.contains e = true := List.contains_iff_mem.mpr he
+  · have hc : known.contains e = true := List.contains_iff_mem.mpr (mapped_known e he)
     simp only [retryable, hc, Bool.true_and]
   · rw [h1]; intro h; cases h
 
-/-- FACT: `context.DeadlineExceeded` is retryable at the origin (it is in `retryableErrs`; the wire code says
-failed_precondition) but its message is not in the registry: the caller gets an unmapped twirp error,
-classified NON-retryable. -/
-theorem deadline_not_preserved (how : String) :
-    retryable registry .deadline = true ∧
-    (how ≠ "raw" → (wrapErr registry how .deadline).code = "failed_precondition") ∧
-    retryable registry (acrossRPC registry how .deadline) = false := by
-  refine ⟨rfl, ?_, unknown_nonretryable how .deadline deadline_unregistered⟩
-  intro hw; exact (code_matches_retryability how .deadline hw).mpr rfl
+def deadlineEntry : Entry := ("context.DeadlineExceeded", "context deadline exceeded", true)
+
+/-- **C14 (deadline, current code).** `context.DeadlineExceeded` is retryable at the origin and arrives as
+`context.DeadlineExceeded` itself, retryable at the caller. -/
+theorem deadline_preserved (how : String) :
+    retryable known (.reg deadlineEntry) = true ∧
+    acrossRPC known mapped how (.reg deadlineEntry) = .reg deadlineEntry ∧
+    retryable known (acrossRPC known mapped how (.reg deadlineEntry)) = true := by
+  have hm : deadlineEntry ∈ mapped := by decide
+  have hr : retryable known (.reg deadlineEntry) = true := by decide
+  exact ⟨hr, identity_preserved how _ hm, by rw [retryability_preserved how _ hm]; exact hr⟩
+
+/-- REGRESSION WITNESS (the error map before the repair = the registry alone): the deadline error was retryable
+at the origin, went out with code failed_precondition, and arrived as an unmapped twirp error, NON-retryable. -/
+theorem deadline_not_preserved_prefix (how : String) :
+    retryable known (.reg deadlineEntry) = true ∧
+    (how ≠ "raw" → (wrapErr known how (.reg deadlineEntry)).code = "failed_precondition") ∧
+    retryable known (acrossRPC known mappedPreFix how (.reg deadlineEntry)) = false := by
+  have hr : retryable known (.reg deadlineEntry) = true := by decide
+  refine ⟨hr, fun hw => (code_matches_retryability how _ hw).mpr hr, ?_⟩
+  have hno : (GoErr.reg deadlineEntry).msg ∉ mappedPreFix.map Entry.msg := by decide
+  obtain ⟨_, _, h2⟩ := unknown_nonretryable_gen known mappedPreFix how (.reg deadlineEntry) hno
+  exact h2
 
 /-! ## non-vacuity (robust to additions to the registry) -/
 
 example : ∃ e ∈ registry, e.retryable = true := by decide
 example : ∃ e ∈ registry, e.retryable = false := by decide
-example : "boom" ∉ registry.map Entry.msg := by decide
-example : ∃ e, e ∈ registry ∧ retryable registry (.reg e) = true ∧ acrossRPC registry "WrapErrorKV" (.reg e) = .reg e := by
-  obtain ⟨e, he, hr⟩ : ∃ e ∈ registry, e.retryable = true := by decide
-  have hc : registry.contains e = true := List.contains_iff_mem.mpr he
+example : "boom" ∉ mapped.map Entry.msg := by decide
+example : ∃ e, e ∈ mapped ∧ retryable known (.reg e) = true ∧ acrossRPC known mapped "WrapErrorKV" (.reg e) = .reg e := by
+  obtain ⟨e, he, hr⟩ : ∃ e ∈ mapped, e.retryable = true := by decide
+  have hc : known.contains e = true := List.contains_iff_mem.mpr (mapped_known e he)
   exact ⟨e, he, by simp only [retryable, hc, hr, Bool.and_self], identity_preserved _ e he⟩
 
 end Specter.C14
